@@ -1,7 +1,7 @@
 def nontrivial(c):
     """a case is non-trivial when the real transmission sent at least one request (some batch was
     dispatched) and at least three events were enqueued"""
-    enq = sum(1 for l in c["lines"] if l.startswith("op enq "))
+    enq = sum(1 for l in c["lines"] if l.startswith("op enq ") or l.startswith("op cenq "))
     sent = any(l.startswith("obs ") and " a=d" in l for l in c["lines"])
     return enq >= 3 and sent
 
@@ -18,7 +18,8 @@ SPEC = dict(
          "with 18 Retry-After forms incl. HTTP dates around 60 s, transport timeouts and errors, real client time-outs, closed "
          "connections), 1-4 destinations sharing host/key/dataset components, MaxBatchSize 1..16, BatchTimeout 1 ms..30 s, event "
          "sizes from 60 B to 1.2 MB incl. 1 000 000 +- 1 and sub-batches filled to 5 000 000 +- 1 bytes, marshal failures, "
-         "unbuildable URLs, occasionally a dataset named '..', '.' or '' (known finding: url.JoinPath cleans it away); clock advances land on / 1 ns around ticker instants and staleness instants; non-trivial = at least "
+         "unbuildable URLs, concurrent enqueues (2-8 goroutines released together at the batch-map lookup, on 1-3 destinations "
+         "not seen before), occasionally a dataset named '..', '.' or '' (known finding: url.JoinPath cleans it away); clock advances land on / 1 ns around ticker instants and staleness instants; non-trivial = at least "
          "three events enqueued and at least one request observed; distinct by transcript hash",
     trusted_base=["net/http client + server (in-process over net.Pipe), klauspost zstd, tinylib/msgp, vmihailenco/msgpack",
                   "clockwork.FakeClock (tickers, Now); Clock.Sleep is recorded and returns immediately",
@@ -29,6 +30,8 @@ SPEC = dict(
                  "Clock.Sleep for Retry-After is virtual (no time passes)",
                  "the http.NewRequest failure branch of sendBatch is unreachable once url.JoinPath accepted the URL and is not modelled",
                  "the scripted server answers only after the transport has closed the request body (sendBatch reuses its pooled bytes.Reader as soon as Do returns; see report)",
+                 "concurrent EnqueueEvent calls are modelled as the linearisation the implementation chose (reported by the harness); "
+                 "enqueue_order_independent shows the choice does not matter for what is sent and counted",
                  "EnqueueEvent is not called after Stop (it would write to a nil map)"],
     manifest=dict(
         text="Lean theorems over all event streams, clock schedules and server behaviours: splitting of any size list terminates, keeps "
